@@ -6,7 +6,8 @@ import json, sys, subprocess, re
 from pathlib import Path
 V = Path(__file__).resolve().parent.parent
 pid = sys.argv[1]
-wt = f"/tmp/seed2-{pid}"
+tag = sys.argv[2] if len(sys.argv) > 2 else "seed2"
+wt = f"/tmp/{tag}-{pid}"
 subprocess.run(["git", "-C", "/repo", "worktree", "remove", "--force", wt], capture_output=True)
 subprocess.run(["git", "-C", "/repo", "worktree", "add", "-f", wt, "HEAD"], capture_output=True)
 prop = next(json.loads(l) for l in (V / "properties.jsonl").read_text().splitlines() if json.loads(l)["id"] == pid)
@@ -32,9 +33,9 @@ for d in sorted((V / "seeded").iterdir()):
             pass
     tried.append("- %s (%s): %s" % (desc, ", ".join(files), first))
 t = (V / "tools" / "seed_prompt.txt").read_text().replace("WORKTREE", wt).replace("PROPTEXT", txt)
-t += ("\nSECOND ROUND: changes of the following kinds have ALREADY been tried against this property; produce three that use "
+t += ("\nLATER ROUND: changes of the following kinds have ALREADY been tried against this property; produce three that use "
       "DIFFERENT mechanisms and, where possible, different functions or clauses of the property than these:\n" + "\n".join(tried) +
       "\n\nFormatting: the first line of each demo file must be a comment containing `build+run: <one self-contained shell command>` "
       "and the comment must END on that same first line.\n")
-Path(f"/tmp/seed2_prompt_{pid}.txt").write_text(t)
+Path(f"/tmp/{tag}_prompt_{pid}.txt").write_text(t)
 print(wt, len(tried), "previous changes listed")
